@@ -161,6 +161,20 @@ const MAX_UNSUB_TIME: Duration = Duration::from_secs(10 * 60);
 // this should be a fraction of the MAX_UNSUB_TIME
 const RECEIVERS_CHECK_INTERVAL: Duration = Duration::from_secs(60);
 
+/// Verification hooks: a schedule knob (delay between the matcher's event channel and the
+/// broadcast to subscribers) and a record of what every catch-up observed.
+#[cfg(corro_verif)]
+pub mod verif_hooks {
+    use std::sync::atomic::AtomicU64;
+    pub static BCAST_DELAY_MS: AtomicU64 = AtomicU64::new(0);
+    /// (catch-up number, what, value): what = "from" | "first" | "peek" | "watch" | "read" | "queued" | "live" | "stop"
+    pub static TRACE: std::sync::Mutex<Vec<(u64, &'static str, i64)>> = std::sync::Mutex::new(Vec::new());
+    pub static NEXT: AtomicU64 = AtomicU64::new(0);
+    pub fn rec(n: u64, what: &'static str, v: i64) {
+        TRACE.lock().unwrap().push((n, what, v));
+    }
+}
+
 pub async fn process_sub_channel(
     subs: SubsManager,
     id: Uuid,
@@ -215,6 +229,14 @@ pub async fn process_sub_channel(
                 break;
             }
         };
+
+        #[cfg(corro_verif)]
+        {
+            let d = verif_hooks::BCAST_DELAY_MS.load(std::sync::atomic::Ordering::SeqCst);
+            if d > 0 {
+                tokio::time::sleep(Duration::from_millis(d)).await;
+            }
+        }
 
         let is_still_active = match make_query_event_bytes(&mut buf, &query_evt) {
             Ok(b) => tx.send(b).is_ok(),
